@@ -6,9 +6,11 @@ import json, os, subprocess, sys
 
 N = int(sys.argv[1])
 want = sys.argv[2:]
-T = '''You are working on the open-source Python project jordicf/FRAME (a research framework for chip floorplanning) in your own scratch git worktree at /tmp/wb_{id}. Work ONLY inside /tmp/wb_{id} and /tmp/ben_{id}. Do not read or modify /repo or /verif or other /tmp/w* directories. Do NOT use `git stash` (the stash is shared between worktrees); to switch between the original and a changed version use `git diff > file`, `git checkout -- .`, `git apply file`.
+ROUND = int(os.environ.get("BENIGN_ROUND", "1"))
+R = "" if ROUND == 1 else str(ROUND)
+T = '''You are working on the open-source Python project jordicf/FRAME (a research framework for chip floorplanning) in your own scratch git worktree at /tmp/wb{r}_{id}. Work ONLY inside /tmp/wb{r}_{id} and /tmp/ben{r}_{id}. Do not read or modify /repo or /verif or other /tmp/w* directories. Do NOT use `git stash` (the stash is shared between worktrees); to switch between the original and a changed version use `git diff > file`, `git checkout -- .`, `git apply file`.
 
-Interpreter: /venv/bin/python (has all dependencies). IMPORTANT: always run with the worktree first on the path, e.g. `cd /tmp/wb_{id} && PYTHONPATH=/tmp/wb_{id} /venv/bin/python ...`, otherwise another installed copy of the package is imported. Run the test suite with: `cd /tmp/wb_{id} && PYTHONPATH=/tmp/wb_{id} /venv/bin/python -m pytest -q -p no:cacheprovider tests` (46 tests, they pass on the unmodified tree).
+Interpreter: /venv/bin/python (has all dependencies). IMPORTANT: always run with the worktree first on the path, e.g. `cd /tmp/wb{r}_{id} && PYTHONPATH=/tmp/wb{r}_{id} /venv/bin/python ...`, otherwise another installed copy of the package is imported. Run the test suite with: `cd /tmp/wb{r}_{id} && PYTHONPATH=/tmp/wb{r}_{id} /venv/bin/python -m pytest -q -p no:cacheprovider tests` (46 tests, they pass on the unmodified tree).
 
 PROPERTY that FRAME satisfies (for every input / configuration / history):
 
@@ -22,9 +24,9 @@ TASK: act as a maintainer doing clean-up work. Produce {n} different, realistic 
  - replace an accumulator loop by sum(...) ONLY if the summation order stays the same; use enumerate/zip/itertools where natural; add type annotations, docstrings, assertion messages.
 Each refactor should touch 5 to 40 lines, in one or two functions, and should be something a reviewer would accept as "no functional change". The {n} refactors must touch different functions.
 
-For each refactor i in (1..{n}) write into /tmp/ben_{id}/ :
+For each refactor i in (1..{n}) write into /tmp/ben{r}_{id}/ :
   - refactor_i.diff : output of `git diff` against HEAD (must apply with `git apply` at the repository root of a clean checkout);
-  - equiv_i.py : a standalone script, run as `cd <root> && PYTHONPATH=<root> /venv/bin/python /tmp/ben_{id}/equiv_i.py`, that exercises the refactored functions on many inputs (include edge cases and, where it makes sense, a few hundred seeded-random inputs) and prints a deterministic digest (e.g. sha256 of repr of all results, exceptions included). Run it on the UNMODIFIED tree and on the refactored tree: the two digests must be identical; record both in the notes. It must not need the network, big solver runs or GUI windows;
+  - equiv_i.py : a standalone script, run as `cd <root> && PYTHONPATH=<root> /venv/bin/python /tmp/ben{r}_{id}/equiv_i.py`, that exercises the refactored functions on many inputs (include edge cases and, where it makes sense, a few hundred seeded-random inputs) and prints a deterministic digest (e.g. sha256 of repr of all results, exceptions included). Run it on the UNMODIFIED tree and on the refactored tree: the two digests must be identical; record both in the notes. It must not need the network, big solver runs or GUI windows;
   - notes_i.md : what was changed and why it is behaviour-preserving; the digest on the original and on the refactored code.
 Verify yourself: with the refactor applied the 46 tests pass and equiv_i prints the same digest as on the original code. When done, restore the worktree to a clean state (`git checkout -- .`, no untracked files left inside the worktree). Reply with a brief summary of the refactors (file, function, one sentence each).'''
 for l in open('/verif/properties.jsonl'):
@@ -32,11 +34,23 @@ for l in open('/verif/properties.jsonl'):
     pid = p['id']
     if want and pid not in want:
         continue
-    out, wt = f"/tmp/ben_{pid}", f"/tmp/wb_{pid}"
+    out, wt = f"/tmp/ben{R}_{pid}", f"/tmp/wb{R}_{pid}"
     os.makedirs(out, exist_ok=True)
     if not os.path.isdir(wt):
         subprocess.run(["git", "-C", "/repo", "worktree", "add", "--detach", "-q", wt, "HEAD"], check=True)
     prop = f"{p['title']}\n\n{p['statement']}\n\nIt holds for: {p['quantifier']['text']}\n\nCode responsible (files): {', '.join(p['anchors']['files'])}"
     open(f"{out}/property.txt", "w").write(prop)
-    open(f"{out}/prompt.txt", "w").write(T.format(id=pid, prop=prop, n=N))
+    # functions a previous round already refactored for this property (taken from the hunk headers of those patches)
+    done = set()
+    import glob, re as _re
+    for d in glob.glob(f"/verif/benign/{pid}-b*/patch.diff"):
+        for m_ in _re.finditer(r"^@@[^@]*@@.*?(?:def|class) (\w+)", open(d).read(), _re.M):
+            done.add(m_.group(1))
+    extra = ""
+    if ROUND > 1 and done:
+        extra = ("\n\nA colleague has already cleaned up these functions / classes; pick OTHER functions relevant to the property, and prefer "
+                 "kinds of refactoring that reshape the code more deeply than a rename (change the loop structure, split a function in two, "
+                 "merge two passes into one, replace a flag variable by control flow, table-driven dispatch instead of if/elif chains or the "
+                 "reverse, early exits, helper extraction with different parameter passing): " + ", ".join(sorted(done)))
+    open(f"{out}/prompt.txt", "w").write(T.format(id=pid, prop=prop, n=N, r=R) + extra)
     print(pid, "ready")
